@@ -57,6 +57,70 @@ Definition go_append (arrs : arrays) (s : slice) (x : val) (newcap : nat) : arra
 (* the iterable of a list.  PSlice is createSliceIterable(items): it captured the slice header when the
    object was created (cap is irrelevant for ranging).  The lazy producers hold the PARENT OBJECT and call
    its iterable field when they are iterated. *)
+(* The remaining lazy stages of value/list.go, with the closures the correspondence run uses.  Their element-wise
+   meaning (shared by the model and the specification side) is stage_sem; what matters for C09 is that a stage
+   result is a lazy object that is re-computed from its parents at EVERY pass and keeps nothing between passes. *)
+Inductive stage :=
+| StMerge        (* a.merge(b,(x,y)->x<y) *)
+| StCross        (* a.cross(b,(x,y)->x+y): b is iterated once per element of a *)
+| StCombine      (* a.combine((x,y)->x+y) *)
+| StCombine3     (* a.combine3((x,y,z)->x+y+z) *)
+| StCombineN     (* a.combineN(2,w->w.sum()) *)
+| StCompact      (* a.compact((x,y)->x=y) *)
+| StNumber       (* a.number((i,e)->i+e) *)
+| StIir          (* a.iir(e->e,(i,o)->o+i) *)
+| StIirCombine.  (* a.iirCombine(e->e,(i0,i1,o)->o+i1) *)
+
+Definition stage_eqb (s t : stage) : bool :=
+  match s, t with
+  | StMerge, StMerge | StCross, StCross | StCombine, StCombine | StCombine3, StCombine3 | StCombineN, StCombineN
+  | StCompact, StCompact | StNumber, StNumber | StIir, StIir | StIirCombine, StIirCombine => true
+  | _, _ => false
+  end.
+
+Fixpoint merge_vals (a : list Z) : list Z -> list Z :=
+  fix inner (b : list Z) : list Z :=
+    match a, b with
+    | [], _ => b
+    | _, [] => a
+    | x :: a', y :: b' => if Z.ltb x y then x :: merge_vals a' b else y :: inner b'
+    end.
+Fixpoint combine2_vals (l : list Z) : list Z :=
+  match l with
+  | x :: ((y :: _) as r) => (x + y)%Z :: combine2_vals r
+  | _ => []
+  end.
+Fixpoint combine3_vals (l : list Z) : list Z :=
+  match l with
+  | x :: ((y :: z :: _) as r) => (x + y + z)%Z :: combine3_vals r
+  | _ => []
+  end.
+Fixpoint compact_from (last : Z) (l : list Z) : list Z :=
+  match l with
+  | [] => []
+  | x :: r => if Z.eqb last x then compact_from x r else x :: compact_from x r
+  end.
+Fixpoint number_from (i : Z) (l : list Z) : list Z :=
+  match l with
+  | [] => []
+  | x :: r => (i + x)%Z :: number_from (i + 1)%Z r
+  end.
+Fixpoint sums_from (acc : Z) (l : list Z) : list Z :=
+  match l with
+  | [] => []
+  | x :: r => (acc + x)%Z :: sums_from (acc + x)%Z r
+  end.
+Definition stage_sem (st : stage) (a b : list Z) : list Z :=
+  match st with
+  | StMerge => merge_vals a b
+  | StCross => flat_map (fun x => map (Z.add x) b) a
+  | StCombine | StCombineN => combine2_vals a
+  | StCombine3 => combine3_vals a
+  | StCompact => match a with [] => [] | x :: r => x :: compact_from x r end
+  | StNumber => number_from 0%Z a
+  | StIir | StIirCombine => sums_from 0%Z a
+  end.
+
 Inductive producer :=
 | PSlice (a off n : nat)
 | PNumbers (n : nat)
@@ -65,7 +129,9 @@ Inductive producer :=
 | PAccept (k : Z) (a : nat)       (* accept(e->e<k) *)
 | PTop (n a : nat)
 | PSkip (n a : nat)
-| PGuard (v : Z) (a : nat).       (* map(e->e+0%(e-v)): the identity whose closure FAILS on elements equal to v *)
+| PGuard (v : Z) (a : nat)        (* map(e->e+0%(e-v)): the identity whose closure FAILS on elements equal to v *)
+| PStage (st : stage) (a b : nat). (* the other lazy stages of value/list.go (merge, cross, combine, ...): a fresh pass
+                                     over the parents' iterables at every iteration, no state kept between passes *)
 
 (* A failing element of a lazy list (its producer returns an error at that position: value/list.go passes
    (value, error) items down the pipeline) is represented IN THE CONTENT by a poison value.  Failure is then a
@@ -98,6 +164,7 @@ Definition prod_content (arrs : arrays) (prev : list (list val)) (p : producer) 
   | PTop n a => firstn n (nth a prev [])
   | PSkip n a => skipn n (nth a prev [])
   | PGuard v a => map (guard_elem v) (nth a prev [])
+  | PStage st a b => stage_sem st (nth a prev []) (nth b prev [])
   end.
 
 (* iteration results of the objects 0..n-1 (producers only refer to older objects) *)
@@ -196,7 +263,10 @@ Inductive op :=
 | OForce (a c1 : nat)                       (* eval(), size(), [i], = : materialise *)
 | OWindows (n a : nat)                      (* combineN(n, w->w): one object per window *)
 | OMovWin (a c1 : nat)                      (* movingWindow(e->e): one object per window *)
-| OGuard (v : Z) (a : nat).                 (* map(e->e+0%(e-v)): lazy, fails on elements equal to v *)
+| OGuard (v : Z) (a : nat)                  (* map(e->e+0%(e-v)): lazy, fails on elements equal to v *)
+| OStage (st : stage) (a b : nat)           (* merge, cross, combine, ... : a lazy object over a (and b) *)
+| OEvalFail (a k : nat).                    (* a materialisation of a (size(), eval(), [i], =, order ...) that is aborted
+                                               by an error after k elements and survived by the caller *)
 
 Arguments OLit xs%Z c%nat.
 Arguments ONumbers n%nat.
@@ -213,6 +283,8 @@ Arguments OForce a%nat c1%nat.
 Arguments OWindows n%nat a%nat.
 Arguments OMovWin a%nat c1%nat.
 Arguments OGuard v%Z a%nat.
+Arguments OStage st a%nat b%nat.
+Arguments OEvalFail a%nat k%nat.
 
 Definition lazy_add (h : heap) (p : producer) : heap := add_obj h (mkO nil_slice false p).
 
@@ -271,6 +343,11 @@ Definition step (h : heap) (o : op) : heap :=
       if a <? nobjs h then fold_left (fun hh w => add_fresh hh w 0) (windows_of n (icontent h a)) h else h
   | OMovWin a c1 => do_movwin h a c1
   | OGuard v a => if a <? nobjs h then lazy_add h (PGuard v a) else h
+  | OStage st a b => if (a <? nobjs h) && (b <? nobjs h) then lazy_add h (PStage st a b) else h
+  | OEvalFail a k =>
+      (* List.Eval: `var it []Value; for v, err := range l.iterable { if err != nil { return err }; it = append(it, v) }`
+         the k elements collected so far sit in a backing array nobody refers to; no field of l was written *)
+      if a <? nobjs h then mkH (h_arrs h ++ [firstn k (icontent h a)]) (h_objs h) else h
   end.
 
 Definition run_from (h : heap) (ops : list op) : heap := fold_left step ops h.
@@ -308,6 +385,7 @@ Definition lazy_ok (i : nat) (p : producer) : Prop :=
   | PNumbers _ => True
   | PConcat a b => a < i /\ b < i
   | PMap _ a | PAccept _ a | PTop _ a | PSkip _ a | PGuard _ a => a < i
+  | PStage _ a b => a < i /\ b < i
   end.
 
 Definition obj_ok (arrs : arrays) (i : nat) (ob : lobj) : Prop :=
@@ -346,6 +424,8 @@ Definition pstep (ps : pstate) (o : op) : pstate :=
   | OWindows n a => if have a then ps ++ windows_of n (get a) else ps
   | OMovWin a _ => if have a then ps ++ map (sub_list (get a)) (mw_bounds (get a) (get a) 0 0) else ps
   | OGuard v a => if have a then ps ++ [map (guard_elem v) (get a)] else ps
+  | OStage st a b => if have a && have b then ps ++ [stage_sem st (get a) (get b)] else ps
+  | OEvalFail _ _ => ps
   end.
 
 Definition prun (ops : list op) : pstate := fold_left pstep ops [].
